@@ -161,6 +161,8 @@ EXPR_FORMS = [
     ("paren-first", lambda v, w: f"({hexlit(v - 2, False)})+0x02" if v >= 2 else None),
     ("paren-last", lambda v, w: f"0x02+({hexlit(v - 2, False)})" if v >= 2 else None),
     ("paren-all", lambda v, w: f"({hexlit(v - 2, False)}+0x02)" if v >= 2 else None),
+    ("negative", lambda v, w: f"0-{256 ** w - v}" if w < 3 and v > 0 else None),        # explicit suffix only: two's complement truncation
+    ("negative-unary", lambda v, w: f"-{256 ** w - v}" if w < 3 and v > 0 else None),
     ("constant", None),
     ("macro-twice", "macro"),
 ]
@@ -209,6 +211,8 @@ def run_expr(mn, tier):
                 if shape[0] == "" and fname == "paren-all":
                     continue  # `mn (expr)` IS the indirect syntax, not a parenthesised direct operand
                 for suffix in ("", {1: ".b", 2: ".w", 3: ".l"}[width]):
+                    if fname.startswith("negative") and not suffix:
+                        continue  # the width of a negative value without suffix is not specified
                     src = f"{pre}{mn}{suffix} {isa.render_operand(shape, text)}"
                     out = impl.assemble(src)
                     n += 1
